@@ -46,6 +46,8 @@ def frame_trace_leg(ctx, pid):
     for t in traces:
         for ev in t["ev"]:
             k = ev["e"] + ("" if ev.get("st", "ok") == "ok" else "!")
+            if ev["e"] == "Derive" and ev.get("from_meta") and ev.get("st") == "ok" and t["h"].get("strict"):
+                kinds["Derive-from-own-metadata"] = kinds.get("Derive-from-own-metadata", 0) + 1
             if ev["e"] == "Create" and ev.get("how") in ("file", "pickle") and ev.get("gen", 0) > 0:
                 kinds["Load-of-recorded-save:" + ev["how"]] = kinds.get("Load-of-recorded-save:" + ev["how"], 0) + 1
             kinds[k] = kinds.get(k, 0) + 1
@@ -56,7 +58,7 @@ def frame_trace_leg(ctx, pid):
     ctx.steps += nev
     ctx.notes["frame_trace_events_by_kind"] = kinds
     for need in ("Create", "Noise", "Noise!", "ZeroData", "Signal", "Signal!", "Snr", "Snr!", "Derive", "Save", "Copy", "Meta", "Info",
-                 "Load-of-recorded-save:file", "Load-of-recorded-save:pickle"):
+                 "Load-of-recorded-save:file", "Load-of-recorded-save:pickle", "Derive-from-own-metadata"):
         if kinds.get(need, 0) == 0:
             raise RuntimeError("vacuity: no %s event in any recorded frame trace" % need)
     if len(ctx.samples) < 4:
